@@ -31,8 +31,8 @@
       stock chain); no such condition for fences (a fence line holds a backtick or tilde);
     * `depthCost w < max_nesting`.
   Code SPANS (section 8): the block half — `doc_para_blocks_nested`: a one-line paragraph inside `w` keeps its
-  inline text (the placeholder `InlineRoot` holds the same `c`, table moved by the prefixes) — is proved; the
-  inline half is OPEN already at top level (precise missing lemmas in the `OPEN:` block at the end).
+  inline text (the placeholder `InlineRoot` holds the same `c`, table moved by the prefixes); the inline half and
+  the document theorems (`doc_span_verbatim_nested`, `doc_span_render_nested`) are in `MdIt/Props/C11Span.lean`.
 -/
 import MdIt.Lemmas.C11Nested
 import MdIt.Lemmas.C11NestedPara
@@ -966,42 +966,26 @@ example : renderDoc false (exCfg false 100) "- > a<`` `*x` ``>b".toList =
 end span
 
 /-
-OPEN: `doc_span_verbatim_nested` — the code-span context of C11 inside containers, through the INLINE pass.
-
-  theorem doc_span_verbatim_nested (pre T W : List Char) (k : Nat) (hT : T ≠ [])
-      (hruns : ¬ List.replicate (k + 1) '`' <:+: T) (hW : W.head? ≠ some '`')
-      -- one line: no terminator, no tab in `l := pre ++ (`ᵏ⁺¹ ␠ T ␠ `ᵏ⁺¹) ++ W`; `l` a paragraph line (starts with
-      -- a non-blank character that no other block rule claims); `pre` free of backticks and of unclosed
-      -- link / emphasis constructs that could swallow the span
-      (w : List Wrapper) … (conditions of `doc_para_blocks_nested`) :
-      ∃ before after, renderDoc x cfg (wrapAll w l) =
-        .ok (wrapHtml w (<p>? ++ before ++ "<code>" ++ escape_html T ++ "</code>" ++ after ++ </p>? ++ "\n"))
-
-  (Since proved, for plain `pre` / `post`: `MdIt/Props/C11Span.lean`.)
-  Proved here: the BLOCK half — `doc_para_blocks_nested` / `parseBlocks_para_nested`: inside the containers the
-  placeholder `InlineRoot` holds exactly the inline text `c` it holds at top level (for a one-line paragraph: the
-  line), so every statement about `Inline.parseInline icfg c _` made at top level applies verbatim; the rule-level
-  `CodePair.span_verbatim_ctx` is a statement about that text only.
-  Missing, ALREADY AT TOP LEVEL (no `doc_span_verbatim` exists in `Lemmas/C14DocVerbatim.lean` either):
-    (1) `Inline.tokenize` reaches byte `|pre|` of `c` with a cache satisfying `CodePair.CacheInv` and
-        `insideFailed.contains |pre| = false`, i.e. a lemma
-          `tokenize_reaches : (no rule of the chain consumes across byte |pre| of c) →
-             the backticks rule is called at pos = |pre| with posMax ≥ the closer's end, cache c₀, CacheInv c₀`
-        (`CodePair.cacheInv_run` preserves the invariant per call; the inline loop that threads the cache
-        through `IState` has no such invariant stated in `Props/Inline.lean` / `Lemmas/InlineRules*.lean`);
-    (2) the node the rule returns (`codeInline`, one `Text (normalise T)` child) survives the post-passes
-        (`balance_pairs`, `fragments_join`, text merge) unchanged — true because it is not a text / emphasis
-        marker node, not stated anywhere;
-    (3) mapping independence for the wrapped document is available: `Inline.XS.parseInline_exact`
-        (Lemmas/C10SpFullInline.lean: same values under two `MapOK` tables with `MLe`), applicable since the
-        table here is `m` moved by `widthAll w`.
-  With (1)–(2) at top level, the nested statement follows from `doc_para_blocks_nested` + (3) + the renderer
-  lemmas of section 2 (`blocky_wrapper`; a tight item renders `<li>` + inline HTML + `</li>`, which is not `Blocky`:
-  one more case in `out_item`).
-  Multi-line spans inside containers: the inline text of a multi-line paragraph in a quote / item is the lines
-  with the prefixes stripped (C06 `get_lines_quote` / `get_lines_item`: content equal), so the same route works;
-  `parseBlocks_para_nested` is stated for ONE line because its relocation lemma uses that every position of the
-  tree lies on line 0.
+PROVED SINCE (was `OPEN:` here): `doc_span_verbatim_nested` — the code-span context of C11 inside containers,
+through the INLINE pass — in `MdIt/Props/C11Span.lean` (audit `MdIt/Audit/C11Span.lean`):
+  `doc_span_verbatim(_sp)`, `doc_span_render(_sp)` at top level, `doc_span_verbatim_nested(_sp)`,
+  `doc_span_render_nested(_sp)` inside any `w : List Wrapper`, for ONE-LINE paragraphs `pre ++ `ᵏ⁺¹ ␠ T ␠ `ᵏ⁺¹ ++ post`
+  with plain `pre` / `post` (no character of the text rule's stop set) and ANY `T` without a run of `k + 1` backticks:
+  the exact tree and the exact output (`renderDoc x cfg (wrapAll w l) = .ok (spanHtml w (pre <code>T</code> post))`,
+  escaped; a list item directly around the paragraph is tight).  The three lemmas that were missing:
+    (1) the tokenizer reaches the span with the EMPTY code-span cache: `C11S.parseInline_span`
+        (Lemmas/C11SpanInline.lean; plain text in front, so no earlier call of the rule);
+    (2) the `CodeInline` node survives the post-passes: `joinFix_spanNodes` (Lemmas/C11SpanDoc.lean);
+    (3) table independence: `parseInline_span` holds for ANY one-entry table `[(0, x)]`;
+  plus the top-level block half `Block.parseBlocks_line` / `tokenize_line_tight` (Lemmas/C11SpanPara.lean), which
+  discharges `hbase` / `htight` of `doc_para_blocks_nested` above for every line whose first character no block
+  rule but `paragraph` claims.
+OPEN (stated in the header of Props/C11Span.lean): MULTI-LINE spans at document level.  The inline text of a
+  multi-line paragraph in a quote / item is the lines with the prefixes stripped (C06 `get_lines_quote` /
+  `get_lines_item`: content equal), so the same route works; `parseBlocks_para_nested` is stated for ONE line
+  because its relocation lemma uses that every position of the tree lies on line 0, and a line of `T` that starts
+  a block interrupts the paragraph, so a per-line hypothesis is needed.  Also open: the UNPADDED form
+  `` `ᵏ⁺¹ R `ᵏ⁺¹ `` at document level (rule level: `CodePair.span_opaque`).
 
 RESTRICTION (not a gap of the model): payload TABS.  All theorems of this file assume a tab-free payload,
 inherited from C06 (`quote_commutes`, `item_commutes_*` are stated for tab-free documents because a tab's width
